@@ -222,9 +222,9 @@ def remove_elements(root, ids):
             pm = parent_map(root)
 
 
-def observe(svg, text):
+def observe(svg, text, **opts):
     """-> list of (id, kind, geometry, fill, stroke, stroke_width) of the rendered shapes, document order"""
-    d = svg.SVG.parse(io.StringIO(text))
+    d = svg.SVG.parse(io.StringIO(text), **opts)
     out = []
     if d is None:
         return out
@@ -280,13 +280,15 @@ def excluded_ids(root, fl):
 
 class Faults(SubCheck):
     case_cpu_limit = 60.0
-    def __init__(self, svg, name, cases):
+    def __init__(self, svg, name, cases, opts=None):
         self.svg = svg
         self.name = name
         self.cases_ = cases
+        self.opts = dict(opts or {})        # non-default options of SVG.parse, the same for the faulty and the reference document
+        self.okey = tuple(sorted(self.opts.items()))
         self._clean = {}
         # the reference documents (faulty elements removed) are parsed in a process that never parses a faulty one
-        self._ref = refserver.RefServer(lambda text: (observe(svg, text), list(getattr(observe, "ids", []))))
+        self._ref = refserver.RefServer(lambda req: (observe(svg, req[0], **dict(req[1])), list(getattr(observe, "ids", []))))
 
     def size(self):
         return len(self.cases_)
@@ -307,7 +309,7 @@ class Faults(SubCheck):
         tags = dict(template=ti, slots=["%s@%s" % (f[0], f[1].split("}")[-1]) for f in fl], values=[f[2] for f in fl],
                     ftype=[f[3] for f in fl])
         try:
-            fobs = observe(svg, ftext)
+            fobs = observe(svg, ftext, **self.opts)
         except RecursionError as e:
             out.fail("SVG.parse raised RecursionError for fault %r" % (tags["slots"],), "returns a document", "RecursionError",
                      kind="raised", exc="RecursionError", **tags)
@@ -327,14 +329,14 @@ class Faults(SubCheck):
             return out
         fids = list(getattr(observe, "ids", []))
         try:
-            robs, rids = self._ref.call(serialize(rroot))
+            robs, rids = self._ref.call((serialize(rroot), self.okey))
         except Exception as e:  # noqa
             out.fail("HARNESS: the document without the faulty element does not parse: %r" % e, harness=True)
             return out
         ex = excluded_ids(clean_root, fl)
         cobs = self._clean.get(ti)
         if cobs is None:
-            cobs = self._clean[ti] = self._ref.call(text)[0]
+            cobs = self._clean[ti] = self._ref.call((text, self.okey))[0]
         if fobs != cobs or any(f[3] == "href" for f in fl):
             out.nontrivial.append(ftext)
         out.outcome = (len(fobs), len(robs))
@@ -420,6 +422,14 @@ def build(tier, seed, svg):
                     pairs.append((ti, (a, b)))
         subs.append(Faults(svg, "pairs", pairs))
         subs[-1].caps_hit = ["pairs (quick): every 17th fault of each template, all pairs in distinct elements (%d pairs)" % len(pairs)]
+    # the faults that make the parser skip a container or a reference, once more under each non-default option of
+    # SVG.parse (the skipping shares its bookkeeping with display:none, which parse_display_none switches)
+    skipping = [c for c in singles if c[1] and c[1][0][3] in ("transform", "transform-style", "href", "viewbox", "display", "par")]
+    if tier != "thorough":
+        skipping = skipping[::3]
+    for oname, o in (("hidden-parsed", dict(parse_display_none=True)), ("unreified", dict(reify=False)),
+                     ("ppi72-sized", dict(ppi=72.0, width="3in", height="2in"))):
+        subs.append(Faults(svg, "options:" + oname, skipping, opts=o))
     return subs
 
 
